@@ -49,7 +49,7 @@ JudgeWritten(e) ==
   IN
      If(f.rest = 0 /\ f.why = "", "C04:trailing-bytes-or-foreign-marker-after-last-block")
      \cup If(MetaHas(f.meta, AvroSchemaKey), "C04:avro.schema-missing")
-     \cup If(e.schema_roundtrip_ok, "C04:embedded-schema-is-not-the-writer-schema")
+     \cup If(e.schema_roundtrip_ok, "C04:avro.schema-is-not-the-JSON-form-of-the-writer-schema")
      \cup If(IF e.codec = "null" THEN (~MetaHas(f.meta, AvroCodecKey) \/ MetaGet(f.meta, AvroCodecKey) = NullName)
              ELSE MetaHas(f.meta, AvroCodecKey) /\ MetaGet(f.meta, AvroCodecKey) = CodecName(e.codec),
              "C04:avro.codec-does-not-name-the-codec")
